@@ -73,7 +73,7 @@ def q_slerp(a, b, alpha):
     if dot < 0.0:
         b = tuple(-c for c in b)
         dot = -dot
-    if dot > 0.9995:
+    if dot > 1.0 - 1e-12:
         r = tuple(x + alpha * (y - x) for x, y in zip(a, b))
         return q_normalize(r)
     dot = min(1.0, dot)
